@@ -52,7 +52,12 @@ class P:
         progs = [g.program(rnd.choice([1, 2, 3])) for _ in range(3000 if tier == "quick" else 40000)]
         muts = [G.mutate_tokens(rnd, p) for p in progs]
         cut = [p[:rnd.randint(0, len(p))] for p in progs[:1500]]
-        gen = [G.pcase(p) for p in progs + muts + cut]
+        # the corpora of here-documents and arithmetic in every position (the lexer prints body lines with the printer to find the
+        # delimiter: what the printer cannot print brings the lexer goroutine down)
+        corp = G.heredoc_corpus() + G.arith_corpus()
+        corp += ["cat <<E\n%s\nE\n" % w for w in ("$((\n))", "$((\\\n))", "$(( \n ))", "$(\n)", "`\n`", "${x:-\n}", "$((\n1\n))", "$(($((\n))))", "\"$((\n))\"")]
+        corp += ["cat <<-E\n\tx $((  \n\t ))\n\tE\n", "cat <<$((\n))\n", "echo $(cat <<E\n$((\n))\nE\n)", "cat <<\"$((\n))\"\nx\n"]
+        gen = [G.pcase(p) for p in progs + muts + cut + corp]
         # other configurations on a sample
         sample = [unhx(c.split("\t")[0]).decode() for c in rnd.sample(ex, len(ex) // 8)] + progs[:800] + muts[:800]
         other = []
